@@ -153,7 +153,28 @@ func ruleUSER2(c *Ctx) {
 			if set1 < 0 {
 				problems = append(problems, "Flags.Set(WithinArshalCall|1) does not immediately precede the call")
 			}
-			if idx+1 < len(list) && isSet(list[idx+1], 0) {
+			// the clear may be the restoring form `if !wasWithin { Set(WithinArshalCall|0) }`
+			isRestore := func(st ast.Stmt) bool {
+				ifs, ok := st.(*ast.IfStmt)
+				if !ok || ifs.Else != nil || len(ifs.Body.List) != 1 || !isSet(ifs.Body.List[0], 0) {
+					return false
+				}
+				u, ok := ast.Unparen(ifs.Cond).(*ast.UnaryExpr)
+				if !ok || u.Op != token.NOT {
+					return false
+				}
+				v := IdentObj(info, u.X)
+				if v == nil {
+					return false
+				}
+				for _, d := range defsOf(info, f.Body(), v) {
+					if gv, isGet := IsFlagGet(info, d); isGet && gv&^1 == within {
+						return true
+					}
+				}
+				return false
+			}
+			if idx+1 < len(list) && (isSet(list[idx+1], 0) || isRestore(list[idx+1])) {
 				set0 = idx + 1
 			} else {
 				problems = append(problems, "Flags.Set(WithinArshalCall|0) does not immediately follow the call")
